@@ -7,6 +7,7 @@ from t4_geom_convert.Kernel.BoundaryCondition.CConversionBoundaryCondition impor
 from t4_geom_convert.Kernel.Surface.SurfaceMCNP import SurfaceMCNP
 from t4_geom_convert.Kernel.Surface.ESurfaceTypeMCNP import ESurfaceTypeMCNP as MST
 
+from t4_geom_convert.Kernel.FileHandlers.Writer import WriteT4BoundCond as WBC
 from pyvc.contract import contract
 
 
@@ -57,6 +58,35 @@ class _ReName:
 
     def ensures(result, name, flag, num):
         yield 'split', result == (flag, num)
+
+
+@contract(WBC.writeT4BoundCond, props=['C16', 'C08'], name='WriteT4BoundCond.writeT4BoundCond', status='B')
+class _WriteBC:
+    """The BOUNDARY_CONDITION block: nothing at all without a flagged surface; otherwise the declared count equals the
+    number of entries, one `ALL_COMPLETE <kind> <number>` line per flagged surface, in deck order, closed by
+    END_BOUNDARY_CONDITION."""
+    scope = 'all dictionaries of 0..3 single-facet surfaces with flag in {"", "*", "+"}'
+
+    def bounded(tier):
+        for n in range(0, 4):
+            for combo in itertools.product(('', '*', '+'), repeat=n):
+                yield {'flags': [(f, 1) for f in combo]}
+
+    def call(flags):
+        import io
+        buf = io.StringIO()
+        WBC.writeT4BoundCond(_dic(flags), buf)
+        return buf.getvalue()
+
+    def ensures(result, flags):
+        want = [(k * 2, {'*': 'REFLECTION', '+': 'COSINUS'}[f]) for k, (f, n) in enumerate(flags, start=3) if f]
+        if not want:
+            yield 'no-block-without-a-flag', result == ''
+            return
+        lines = [l for l in result.split('\n') if l.strip()]
+        yield 'block-delimiters', lines[0] == 'BOUNDARY_CONDITION' and lines[-1] == 'END_BOUNDARY_CONDITION'
+        yield 'declared-count-is-the-number-of-entries', lines[1].strip() == str(len(want)) and len(lines) == len(want) + 3
+        yield 'one-entry-per-flagged-surface-in-order', lines[2:-1] == [f'ALL_COMPLETE {kind} {k}' for k, kind in want]
 
 
 def _sweep_c16(tier, seed):
